@@ -64,6 +64,9 @@ Definition case_yaml (input obs : json) : verdict :=
     if obs_is "panic" o then Some "parse_yaml panics"
     else if obs_is "ok" o then
       match obs_val o with
+      | JArr [c; JArr ps] => if negb (json_eqb c (jget "claims" input)) then Some "claims differ from the document without its tags (a tag was turned into data)"
+                             else if ancestor_before (jstrs (JArr ps)) then Some "an enclosing path is reported before a path nested in it (issuing would fail)"
+                             else None
       | JArr [c; _] => if json_eqb c (jget "claims" input) then None
                        else Some "claims differ from the document without its tags (a tag was turned into data)"
       | _ => Some "unreadable outcome" end
